@@ -9,7 +9,7 @@ def run(rep):
     enginep.engine_deductive(rep, enginep.COPY_FUNS + ['engine.YP.assert_fact', 'engine.get_value', 'engine.Variable.get_value',
                                                          'engine.Functor.get_value', 'engine.Atom.get_value'])
     q = rep.tier == 'quick'
-    fw.standin(rep, 'difftest.py', ['run', 'F4', rep.seed + 13, 1200 if q else 20000],
+    fw.standin(rep, 'difftest.py', ['run', 'F4', rep.seed + 13, 5000 if q else 40000],
                'facts asserted under binding histories and used several times vs reference (copy semantics)',
                'random F4 cases incl. non-ground facts used twice and variables bound after the assert')
     fw.standin(rep, 's_dbx.py', ['run', rep.seed, 6000 if q else 24000],
